@@ -13,6 +13,8 @@
     SAMPLES n nm <monomials as in TERMS> <tree form> lq q* nk (key bits (lq) count)*  -> symbolicScaled ; denseScaled ; specScaled
     TFIM n h | ONE n <8 ints>                      -> dense builder ; dense(form)
     HEIS n Jx Jy Jz hx hy hz (integers)            -> dense Heisenberg builder ; dense(Heisenberg form)
+    CIRC n nt (cre cim nf (I|X|Y|Z q)*)* <psi>       -> per term: rotCount ; measurement layer q:K … ; measuredValue(layer) ; ⟨psi|P psi⟩   … || ‖psi‖²
+                                                      (QV/Model/HamilCirc.lean: the basis-rotation step of expectation_from_circuit)
     HIST n ns (N <ast form> | T i | A i j | B i j | M i j | K re im i | PA re im i | PS re im i | RS re im i)* <psi>
                                                    -> per object: constant ; h @ psi   (objects joined by |), once without and
                                                       once with term reuse (joined by ||): the algebra over call histories (QV/Model/HamilAlg.lean)
@@ -22,6 +24,7 @@ import QV.Model.Table
 import QV.Model.Sim
 import QV.Model.Hamil
 import QV.Model.HamilAlg
+import QV.Model.HamilCirc
 open QV
 
 structure Rd where
@@ -170,6 +173,18 @@ def showStore (n : Nat) (st : List (SObj GI)) (ψ : Array GI) : String :=
     let o' := o.touch sameSym
     s!"{o'.constant.toStr} ; {showGIs (applyGatesT n o'.termHam ψ)}")
 
+def giI : GI := ⟨0, 1⟩
+
+def kindOf (t : String) : PKind :=
+  match t with
+  | "X" => .X
+  | "Y" => .Y
+  | "Z" => .Z
+  | _ => .I
+
+def kindStr : PKind → String
+  | .I => "I" | .X => "X" | .Y => "Y" | .Z => "Z"
+
 def handle : P String := do
   let cmd ← nextTok
   match cmd with
@@ -253,6 +268,28 @@ def handle : P String := do
     let A := tableOf2 n (heisDense n cs)
     let B := denseT n (heisForm n cs)
     pure s!"{showGIs A} ; {showGIs B}"
+  | "CIRC" =>
+    let n ← nextNat
+    let nt ← nextNat
+    let mut termsR : List (PTerm GI) := []
+    for _ in [0:nt] do
+      let c ← nextGI
+      let nf ← nextNat
+      let mut fsR : List PFac := []
+      for _ in [0:nf] do
+        let k ← nextTok
+        let q ← nextNat
+        fsR := { kind := kindOf k, q := q } :: fsR
+      termsR := { coef := c, factors := fsR.reverse } :: termsR
+    let ψ ← nextGIs (2 ^ n)
+    let parts := termsR.reverse.map fun t =>
+      let ms := measurements t.factors
+      let layer := " ".intercalate (ms.map fun m => s!"{m.1}:{kindStr m.2}")
+      let v := measuredValue n GI.conj giI ms (ofTable n ψ)
+      let e := expectState n GI.conj (pauliWord giI t.factors (ofTable n ψ)) (ofTable n ψ)
+      s!"{rotCount ms} ; {layer} ; {v.toStr} ; {e.toStr}"
+    let nrm := norm2 n GI.conj (ofTable n ψ)
+    pure s!"{" | ".intercalate parts} || {nrm.toStr}"
   | "HIST" =>
     let n ← nextNat
     let ns ← nextNat
